@@ -151,8 +151,12 @@ def make_case(name, cfg, r, tier, with_history, export=True):
         H = 2
     if H > 6:
         H = 6
-    if real == "double" and data == "double" and r.random() < 0.06:
-        H = gen.pick_height_deep(r, D)       # leaf indices beyond 31 bits (deep, sparse)
+    # deep, sparse trees (leaf indices beyond 31 bits), decided by a generator of its own so that the main stream - and with it
+    # every other case of the family - is what it was before this option existed
+    import random
+    rdeep = random.Random(hash(r.getstate()[1][:8]))
+    if real == "double" and data == "double" and rdeep.random() < 0.06:
+        H = gen.pick_height_deep(rdeep, D)
     center, width = gen_box(r, D, real)
     if nrhs > 0 and len(set(width)) > 1:
         pass  # per-dimension widths are fine for the counting kernel
